@@ -307,8 +307,9 @@ def run(F, R):
                 R.ob('C16.sites', key, True, 'PROVEN: guarded by a dominating comparison / constant shift', s['loc'], status='proven')
                 continue
             ent = None
+            ptop = re.sub(r'(::\{(closure|inl)#\d+\})+$', '', p)
             for i, (fre, kre, wre, cls, reason, cnt) in enumerate(TABLE):
-                if re.search(fre, p) and re.fullmatch(kre, s['kind']) and re.search(wre, s['what']):
+                if (re.search(fre, p) or re.search(fre, ptop)) and re.fullmatch(kre, s['kind']) and re.search(wre, s['what']):
                     ent = (i, cls, reason, cnt)
                     break
             if ent is None:
